@@ -194,6 +194,7 @@ var s struct {
 	opts    [maxOpts]option
 	running int32
 	current int32
+	alive   int32
 	steps   int64
 
 	p       Params
@@ -597,6 +598,7 @@ func newTask(site int32) *task {
 	t := &task{id: s.ntasks, ch: make(chan struct{}, 1), state: tPending, kind: rStart, site: site, parent: s.current, createSite: site}
 	s.tasks[s.ntasks] = t
 	s.ntasks++
+	s.alive++
 	unlock()
 	return t
 }
@@ -605,6 +607,7 @@ func newTask(site int32) *task {
 func taskExit(t *task, pv any, stack []byte) {
 	lock()
 	t.state = tDone
+	s.alive--
 	logEvent(Event{t.id, -1, t.site, OpExit})
 	if pv != nil {
 		if npanics < len(panicsBuf) {
@@ -679,13 +682,17 @@ func Go0(site int, f func()) {
 	Yield(site)
 }
 
-// Yield is a scheduling point with no other effect.
+// Yield is a scheduling point with no other effect. While a single task is alive there is nothing to
+// decide and it returns at once (no step is counted): sequential phases cost nothing.
 func Yield(site int) {
-	if !Active() {
+	if !Active() || alone() {
 		return
 	}
 	request(rYield, int32(site), -1)
 }
+
+//go:norace
+func alone() bool { return s.alive <= 1 && s.current >= 0 }
 
 // Y is Yield returning a value, for use in expression position: After(Y(site), expr).
 func Y(site int) struct{} {
@@ -844,6 +851,7 @@ func reset(p Params) {
 	}
 	s.ntasks, s.nprims, s.nevents = 0, 0, 0
 	s.running, s.current, s.steps = 0, -1, 0
+	s.alive = 1
 	s.p = p
 	s.tapePos = 0
 	s.decisions, s.multi, s.switches, s.rendezvous, s.starved = 0, 0, 0, 0, 0
